@@ -282,3 +282,22 @@ Theorem mult_unscale_nth : forall scaler obj_scaler mult k, (k < length mult)%na
 Proof.
   intros. unfold mult_unscale. rewrite (nth_mapi _ mult k 0 0 H). reflexivity.
 Qed.
+
+(* ---------------------------------------------------------------- non-vacuity *)
+
+Example ref_example : das (Some (2 # 1)) (Some (4 # 1)) None None = DasOk (- (2 # 1)) (1 / ((4 # 1) + - (2 # 1))).
+Proof. reflexivity. Qed.
+
+Example roundtrip_example :
+  Forall2 Qeq (vec_unscale (Some (Sc 1)) (Some (Ar [2 # 1; 1 # 4])) (vec_scale (Some (Sc 1)) (Some (Ar [2 # 1; 1 # 4])) [3 # 1; -5 # 2]))
+          [3 # 1; -5 # 2].
+Proof. repeat constructor. Qed.
+
+Example bound_example :
+  scale_bound (Some (Ar [-4 # 1; - INF_BOUND])) (Some (Sc 1)) (Some (Sc (2 # 1))) 2 true = [-6 # 1; - INF_BOUND].
+Proof. vm_compute. reflexivity. Qed.
+
+Example kkt_example :
+  lagr ((2 # 1) * (3 # 1) / (4 # 1)) [1 # 2] (scale_grads (4 # 1) [8 # 1] [-3 # 2]) == 0 /\
+  lagr (3 # 1) (unscale_mults (2 # 1) [8 # 1] [1 # 2]) [-3 # 2] == 0.
+Proof. split; vm_compute; reflexivity. Qed.
